@@ -164,8 +164,8 @@ func runC12(c *Ctx, r *Report) {
 	r.Tables["wire_struct_types"] = wnames
 	r.Tables["wire_nilable_pointer_fields"] = nilable
 	r.Tables["decoder_call_sites"] = sites
-	r.Floor("R-C12.1", "decoder-filled struct types", len(wt), 5)
-	r.Floor("R-C12.1", "nilable pointer fields of wire structs", len(nilable), 4)
+	r.Floor("R-C12.1", "decoder-filled struct types", len(wt), 3)
+	r.Floor("R-C12.1", "nilable pointer fields of wire structs", len(nilable), 3)
 
 	scope := decodeScope(c)
 	var scopeNames []string
@@ -175,7 +175,7 @@ func runC12(c *Ctx, r *Report) {
 	}
 	sort.Strings(scopeNames)
 	r.Tables["decode_closure"] = scopeNames
-	r.Floor("R-C12.3", "functions in the decode closure", len(scope), 15)
+	r.Floor("R-C12.3", "functions in the decode closure", len(scope), 8)
 
 	// R-C12.1 — over all first-party non-test functions (a wire struct may be consumed anywhere)
 	nuse := 0
@@ -195,7 +195,7 @@ func runC12(c *Ctx, r *Report) {
 				fmt.Sprintf("%s is nil for a well-formed block that omits the field, and it is dereferenced here (%s) with no dominating nil test: nil-pointer panic on the fetch goroutine", u.Path, u.What))
 		}
 	}
-	r.Floor("R-C12.1", "dereferencing uses of nilable wire fields", nuse, 4)
+	r.Floor("R-C12.1", "dereferencing uses of nilable wire fields", nuse, 3)
 
 	// R-C12.2
 	armed := 0
@@ -214,7 +214,7 @@ func runC12(c *Ctx, r *Report) {
 		a, _ := sinkObligations(c, r, "R-C12.2", fn, true)
 		armed += a
 	}
-	r.Floor("R-C12.2", "wire-byte index/slice sinks", armed, 5)
+	r.Floor("R-C12.2", "wire-byte index/slice sinks", armed, 3)
 
 	// R-C12.3
 	nAssert, nErr := 0, 0
@@ -312,7 +312,7 @@ func runC12(c *Ctx, r *Report) {
 			return true
 		})
 	}
-	r.Floor("R-C12.3", "error-returning calls examined in the decode closure", nErr, 8)
+	r.Floor("R-C12.3", "error-returning calls examined in the decode closure", nErr, 4)
 	_ = nAssert
 
 	// R-C12.4
@@ -352,5 +352,5 @@ func runC12(c *Ctx, r *Report) {
 			}
 		})
 	}
-	r.Floor("R-C12.4", "entry ToPlain converters", nTP, 2)
+	r.Floor("R-C12.4", "entry ToPlain converters", nTP, 1)
 }
